@@ -63,6 +63,7 @@ class Config:
     max_paths = 20000
     use_cvc5 = True
     keep_smt2 = 3  # how many sample obligations keep their SMT-LIB text
+    forall_range_check = True  # values.forall: ask the solver whether the range is empty before building the quantifier
 
 
 def cvc5_check(smt2: str, timeout_s: int = 20) -> str:
